@@ -10,6 +10,7 @@ Definition noexempt (s : mstate) : Prop := Forall (fun g => g_opset g <> OsPreHa
 Section Tight.
   Variable d : dialect.
   Hypothesis Hop : dop_budget d.
+  Hypothesis Htight : dop_tight d.
   Hypothesis Hne : noexempt_d d.
 
   Lemma parse_softfork_noexempt ol ext prg env :
@@ -168,7 +169,7 @@ Section Tight.
       destruct (A - cost <? ec) eqn:L2; [lia|]. reflexivity.
     - destruct (d_op d opr ol (B - cost) _) as [[c0 v]|] eqn:D; cbn [bind] in E; [|discriminate].
       injection E as <- <-.
-      destruct (Hop _ _ _ _ _ _ D (A - cost)) as (_ & H2 & _). rewrite H2 by lia. reflexivity.
+      rewrite (Htight _ _ _ _ _ _ D (A - cost)) by lia. reflexivity.
   Qed.
 
   Lemma run_loop_tight fuel : forall cost s C v, balanced s -> noexempt s -> C <= A ->
@@ -188,7 +189,7 @@ Section Tight.
   Qed.
 End Tight.
 
-Lemma run_program_tight d (Hop : dop_budget d) (Hne : noexempt_d d) fuel p e M1 M2 C v :
+Lemma run_program_tight d (Hop : dop_budget d) (Htight : dop_tight d) (Hne : noexempt_d d) fuel p e M1 M2 C v :
   run_program d fuel p e M1 = Ok (C, v) ->
   (run_program d fuel p e M2 = Ok (C, v) <-> C <= eff M2).
 Proof.
@@ -198,7 +199,7 @@ Proof.
     + eapply run_program_upward; eassumption.
     + unfold run_program in *. fold (eff M1) in H1. fold (eff M2).
       destruct (eval_pair d init_state p e) as [[c s]|] eqn:E; cbn [bind] in *; [|discriminate].
-      eapply (run_loop_tight d Hop Hne (eff M2) (eff M1) H); try eassumption.
+      eapply (run_loop_tight d Htight Hne (eff M2) (eff M1) H); try eassumption.
       * eapply eval_pair_balanced; [exact E|reflexivity].
       * unfold noexempt. rewrite (eval_pair_guards _ _ _ _ _ _ E). constructor.
 Qed.
